@@ -63,6 +63,26 @@ theorem C04_dispatch_other : ∀ (p : Packed) (f : T Nat → T Nat),
     p.dispatch (.other f) = .plain (f p.unpack) :=
   fun _ _ => rfl
 
+/-- several packed operands (e.g. `torch.equal(p, q)`, `p + q`, `cat([p, q])`): the op sees the unpacked
+values of each -/
+theorem C04_dispatch_nary (ps : List Packed) (f : List (T Nat) → T Nat) :
+    Packed.dispatchN ps f = .plain (f (ps.map fun p => p.unpack)) := rfl
+
+/-- … and nothing else: operands with the same unpacked values give the same result -/
+theorem C04_dispatch_nary_values_only (ps qs : List Packed) (f : List (T Nat) → T Nat)
+    (h : (ps.map fun p => p.unpack) = qs.map fun p => p.unpack) :
+    Packed.dispatchN ps f = Packed.dispatchN qs f := by
+  simp only [Packed.dispatchN, h]
+
+/-- the payload alone does not determine the values: three 2-bit rows and the same rows followed by a zero
+row have the same payload, so an op must not be evaluated on the payloads of its operands -/
+theorem C04_same_payload_different_values :
+    let p := Packed.pack 2 ⟨[3], #[1, 2, 3]⟩
+    let q := Packed.pack 2 ⟨[4], #[1, 2, 3, 0]⟩
+    p.data.data = q.data.data ∧ p.data.shape = q.data.shape ∧ p.bits = q.bits ∧
+      p.unpack.shape ≠ q.unpack.shape := by
+  decide +kernel
+
 theorem C04_dispatch_detach : ∀ p : Packed, ∃ q,
     p.dispatch .detach = .packed q ∧ q.unpack = p.unpack ∧ q.size = p.size ∧ q.bits = p.bits :=
   fun p => ⟨⟨p.bits, p.size, p.data⟩, rfl, rfl, rfl, rfl⟩
